@@ -46,6 +46,19 @@ type vfLimCase struct {
 
 var vfLimConfigured = []int{10, 25, 100, 1000}
 
+// configured limits whose limiter construction is measured ("for all configured limits": every value
+// from the minimum to 130, then a spread including values that do not divide 1000 or 10^9 and values above 1000)
+var vfLimSampled = func() []int {
+	var l []int
+	for n := 10; n <= 130; n++ {
+		l = append(l, n)
+	}
+	return append(l, 150, 175, 199, 200, 250, 300, 333, 400, 500, 600, 750, 999, 1000, 1001, 1024, 1500, 2000, 3000, 5000, 10000)
+}()
+
+// limits beyond the usual ones for which arrival patterns are run as well
+var vfLimOdd = []int{150, 400, 600, 1500}
+
 // ---- a minimal provider (discovery + JWKS) on the loopback interface
 
 type vfLimProvider struct {
@@ -323,6 +336,17 @@ func vfLimCorpus() []*vfLimCase {
 		g.steady(g.p, 15)
 		out = append(out, &vfLimCase{Kind: "corpus-drain+steady-1x", N: n, Ts: g.ts})
 	}
+	for _, n := range vfLimOdd {
+		// limits that do not divide a second evenly, and one above 1000: the whole burst, then one second
+		// of arrivals at 1.25 times the limit (upper clause: at most n + n in that window)
+		g := &vfLimGen{n: n, p: int64(time.Second) / int64(n)}
+		g.burst(n)
+		g.steady(int64(time.Second)/int64(n*5/4), n*5/4)
+		out = append(out, &vfLimCase{Kind: "corpus-odd-limit-1.25x", N: n, Ts: g.ts})
+		g2 := &vfLimGen{n: n, p: int64(time.Second) / int64(n)}
+		g2.burst(2*n + 5)
+		out = append(out, &vfLimCase{Kind: "corpus-odd-limit-at-once", N: n, Ts: g2.ts})
+	}
 	for _, n := range []int{10, 25, 100} {
 		// 2n+5 at once, the same again just under one second later (upper clause)
 		g := &vfLimGen{n: n, p: int64(time.Second) / int64(n)}
@@ -492,7 +516,7 @@ func TestVF_Limiter(t *testing.T) {
 		Burst     int   `json:"burst"`
 	}
 	var samples []sample
-	for _, n := range vfLimConfigured {
+	for _, n := range vfLimSampled {
 		inst := vfLimNew(t, p.srv.URL, n)
 		rm, b := vfLimMeasure(inst)
 		samples = append(samples, sample{N: n, RateMilli: rm, Burst: b})
